@@ -122,6 +122,21 @@ Theorem C09_rebuild_valence_sum : forall a val b idxs l' l,
     (Z.even b = false -> 2 * Z.of_nat (length idxs) = 2 * v - b - 1 /\ sum_orders l' = Ok (2 * v - 1)).
 Proof. exact rebuild_valence_sum. Qed.
 
+(** … and WITHOUT the half-unit caveat for every atom that is not flagged aromatic, under the aromaticity
+    contract [arom_contractb] (every order is a number; a 1.5 order only joins two atoms flagged aromatic),
+    which ./check C09 evaluates on every recorded transcript: such an atom receives exactly
+    (least fitting valence - bonds) hydrogens, all of degree one, and its orders add up to that valence *)
+Theorem C09_rebuild_valence_exact : forall ca g1 g' k n val b,
+  NoDup (node_keys g1) -> closed_g g1 -> noself_g g1 -> (forall i m, gfind i g1 = Some m -> no_rs m) ->
+  arom_contractb g1 = true -> rebuild_after_car false ca g1 = Ok g' ->
+  gfind k g1 = Some n -> is_H (na n) = false -> is_arom (na n) = false ->
+  valence_of (na n) = Ok val -> sum_orders (nadj n) = Ok b -> fits val b ->
+  exists v idxs n', least_fitting val b v /\ gfind k g' = Some n' /\
+    nadj n' = nadj n ++ map (fun j => (j, h_edge_attrs)) idxs /\
+    2 * Z.of_nat (length idxs) = 2 * v - b /\ sum_orders (nadj n') = Ok (2 * v) /\
+    forall j, In j idxs -> exists h, gfind j g' = Some h /\ nadj h = [(k, h_edge_attrs)] /\ is_H (na h) = true.
+Proof. exact rebuild_valence_exact. Qed.
+
 (** the hypotheses follow from the well-formedness notion C10's squash theorems preserve *)
 Theorem C09_wf_graph_structural : forall g, wf_graph g -> NoDup (node_keys g) /\ closed_g g /\ noself_g g.
 Proof. exact wf_graph_structural. Qed.
@@ -153,3 +168,4 @@ Print Assumptions C09_rebuild_h_atoms_transcript.
 Print Assumptions C09_rebuild_end_to_end.
 Print Assumptions C09_rebuild_valence_sum.
 Print Assumptions C09_wf_graph_structural.
+Print Assumptions C09_rebuild_valence_exact.
